@@ -4,7 +4,7 @@
    driver only reads and prints numbers. *)
 From Coq Require Import FMapPositive.
 From Lace Require Import Word Machine Isa Vm RunProofs.
-From Lace Require Asm Cli Watch.
+From Lace Require Asm Cli Watch Feat.
 
 (* ------------------------------------------------------------------ *)
 (** * Helpers *)
@@ -213,6 +213,12 @@ Fixpoint take_versions (n : nat) (args : list N) : list (list N) :=
 Definition run_watch (args : list N) : list (list N) :=
   let feat := negb (hdN args =? 0) in
   [Watch.watch feat [] (take_versions (N.to_nat (hdN (tlN args))) (tlN (tlN args)))].
+
+(** FEAT = nchars and the chars of the value given to -f / --features; result 0 = accepted, extension off,
+    1 = accepted, extension on, 2 = refused ([Feat.parse_features]) *)
+Definition run_feat (args : list N) : list (list N) :=
+  let '(s, _) := take (N.to_nat (hdN args)) (tlN args) in
+  [[match Feat.parse_features s with Some false => 0 | Some true => 1 | None => 2 end]].
 
 Definition run_lc3 (args : list N) : list (list N) :=
   let feat := negb (hdN args =? 0) in
